@@ -53,6 +53,7 @@ def c_errs(es):
 def c_exn(e):
     from maflib.validation import MafFormatException
     if isinstance(e, MafFormatException):
+        assert str(e) == e.message      # the exception prints its message
         return ["MafFormatException", TPE_CODE.get(e.tpe.name, -1), e.line_number]
     return [type(e).__name__]
 
@@ -500,8 +501,7 @@ def impl_reader(lines, mode, override, channel="lines"):
                 out["end"] = ["DidNotTerminate"]
             out["errs"] = c_errs(rd.validation_errors)
             out["log"] = cap.take()
-            if channel != "lines":
-                rd.close()
+            rd.close()              # with and without a closeable handle
         return out
     finally:
         if work is not None:
@@ -655,9 +655,12 @@ def impl_writer(hlines, mode, specs, channel="fd", hmode=None):
                 return {"log": cap.take(), "init": ["exc", c_exn(e)]}
             out = {"log": cap.take(), "init": ["ok", c_errs(h.validation_errors)], "adds": [],
                    "_header_is_the_header": w.header() is h}
-            for r in recs:
+            for i, r in enumerate(recs):
                 try:
-                    w += r
+                    if i % 2:
+                        w.write(r)          # the method spelling of `writer += record`
+                    else:
+                        w += r
                     res = ["ok", c_errs(r.validation_errors)]
                 except Exception as e:  # noqa
                     res = ["exc", c_exn(e)]
